@@ -1598,8 +1598,9 @@ int32 parseServerHello(ssl_t *ssl, int32 hsLen, unsigned char **cp,
     if (ssl->cookie)
     {
         psFree(ssl->cookie, ssl->hsPool); ssl->cookie = NULL;
-        ssl->cookieLen = 0; ssl->haveCookie = 0;
     }
+    /* (also after an empty cookie, which left nothing to free) */
+    ssl->cookieLen = 0; ssl->haveCookie = 0;
     if (ssl->helloExt)
     {
         psFree(ssl->helloExt, ssl->hsPool); ssl->helloExt = NULL;
